@@ -380,7 +380,7 @@ class GroupbyAggregationBase(GroupByApplyConcatApply, GroupByBase):
         # chunk, aggregate, and finalizer functions
         if is_dataframe_like(self.frame._meta):
             group_columns = self._by_columns
-            if self._slice:
+            if self._slice is not None:
                 non_group_columns = self._slice
                 if is_scalar(non_group_columns):
                     non_group_columns = [non_group_columns]
@@ -2287,7 +2287,7 @@ class SeriesGroupBy(GroupBy):
         >>> ddf = dd.from_pandas(df, 2)
         >>> ddf.groupby(['col1']).col2.nunique().compute()
         """
-        slice = self._slice or self.obj.name
+        slice = self._slice if self._slice is not None else self.obj.name
         return new_collection(
             NUnique(
                 self.obj.expr,
